@@ -9,6 +9,7 @@ import textwrap
 from ..core import AnalysisError, norm, short
 from ..setalg import Universe, SetInterp, Opaque, Unmodelled
 from .. import codegen
+from .. import effects
 from ..codegen import TemplateEval, Sym, Elem
 from ..cfg import CFG, expand_conds
 from ..layers import layers_of_var, layers_of_expr, layers_of_value, index_of
@@ -720,12 +721,250 @@ def _always_raises(cfg, srcs, exc):
     return True, ''
 
 
+# ---------------------------------------------------------------------------------------------
+# "the raise of the documented exception cannot itself fail": shapes of formatting operands
+# ---------------------------------------------------------------------------------------------
+
+_SHAPE_CALLS = {'list': 'list', 'sorted': 'list', 'set': 'set', 'frozenset': 'set', 'dict': 'dict', 'str': 'str', 'repr': 'str',
+                'format': 'str', 'len': 'num', 'int': 'num', 'float': 'num', 'bool': 'bool', 'id': 'num', 'sum': 'num'}
+_STR_METHODS = {'join', 'format', 'strip', 'lstrip', 'rstrip', 'lower', 'upper', 'title', 'replace', 'capitalize', 'format_map'}
+_CONST_SHAPES = ((bool, 'bool'), (str, 'str'), (bytes, 'bytes'), (int, 'num'), (float, 'num'), (type(None), 'none'))
+
+
+def shape_of(repo, fi, e, depth=0):
+    """Abstract run-time shape of the value of expression ``e`` in function ``fi``: (kind, length) with kind one of
+    tuple / list / set / dict / str / bytes / num / bool / none / gen / nontuple (some value that supports a set operator,
+    hence no tuple), or None when the source does not determine it.  ``length`` is known for tuple displays only.
+    Single-assignment locals are followed, and so is a local bound by unpacking the tuple a resolvable function of the
+    package returns (every return of the callee must agree).  Nothing is evaluated: a finite abstract domain over the tree."""
+    if depth > 6 or e is None:
+        return None
+    if isinstance(e, ast.Constant):
+        for ty, k in _CONST_SHAPES:
+            if isinstance(e.value, ty):
+                return (k, None)
+        return None
+    if isinstance(e, ast.Tuple):
+        return ('tuple', None if any(isinstance(x, ast.Starred) for x in e.elts) else len(e.elts))
+    if isinstance(e, (ast.List, ast.ListComp)):
+        return ('list', None)
+    if isinstance(e, (ast.Set, ast.SetComp)):
+        return ('set', None)
+    if isinstance(e, (ast.Dict, ast.DictComp)):
+        return ('dict', None)
+    if isinstance(e, ast.GeneratorExp):
+        return ('gen', None)
+    if isinstance(e, ast.JoinedStr):
+        return ('str', None)
+    if isinstance(e, ast.IfExp):
+        a, b = shape_of(repo, fi, e.body, depth + 1), shape_of(repo, fi, e.orelse, depth + 1)
+        if a is None or b is None or a[0] != b[0]:
+            return None
+        return a if a == b else (a[0], None)
+    if isinstance(e, ast.Call):
+        if isinstance(e.func, ast.Name):
+            cn = e.func.id
+            if cn == 'tuple' and not e.keywords:
+                if not e.args:
+                    return ('tuple', 0)
+                inner = shape_of(repo, fi, e.args[0], depth + 1) if len(e.args) == 1 else None
+                return ('tuple', inner[1] if inner and inner[0] == 'tuple' else None)
+            if cn in _SHAPE_CALLS:
+                return (_SHAPE_CALLS[cn], None)
+        if isinstance(e.func, ast.Attribute) and e.func.attr in _STR_METHODS:
+            recv = shape_of(repo, fi, e.func.value, depth + 1)
+            if recv and recv[0] == 'str':
+                return ('str', None)
+        return None
+    if isinstance(e, ast.BinOp):
+        l, r = shape_of(repo, fi, e.left, depth + 1), shape_of(repo, fi, e.right, depth + 1)
+        if isinstance(e.op, ast.Mod) and l and l[0] == 'str':
+            return ('str', None)
+        if isinstance(e.op, ast.Add) and l and r and l[0] == r[0]:
+            return (l[0], l[1] + r[1] if l[0] == 'tuple' and l[1] is not None and r[1] is not None else None)
+        if isinstance(e.op, (ast.Sub, ast.BitOr, ast.BitAnd, ast.BitXor)):
+            for s in (l, r):
+                if s and s[0] == 'set':
+                    return ('set', None)
+            return ('nontuple', None)      # tuples support none of these operators
+        return None
+    if isinstance(e, ast.Name):
+        if fi is None:
+            return None
+        vals = assigned_value(fi.node, e.id)
+        if not vals:
+            if e.id in fi.params():
+                return None
+            try:
+                v = repo.try_fold(e, fi.mod)
+            except Exception:
+                v = None
+            for ty, k in _CONST_SHAPES + ((tuple, 'tuple'), (list, 'list'), (set, 'set'), (frozenset, 'set'), (dict, 'dict')):
+                if v is not None and isinstance(v, ty):
+                    return (k, len(v) if k == 'tuple' else None)
+            return None
+        if e.id in fi.params():
+            return None
+        shapes = []
+        for st, v, idx in vals:
+            if idx is None and isinstance(st, (ast.Assign, ast.AnnAssign)):
+                shapes.append(shape_of(repo, fi, v, depth + 1))
+            elif isinstance(idx, int) and isinstance(st, ast.Assign):
+                shapes.append(_unpacked_shape(repo, fi, v, idx, depth + 1))
+            else:
+                shapes.append(None)
+        if all(s is not None for s in shapes) and len(set(s[0] for s in shapes)) == 1:
+            return shapes[0] if len(set(shapes)) == 1 else (shapes[0][0], None)
+        return None
+    return None
+
+
+def _unpacked_shape(repo, fi, v, idx, depth):
+    """Shape of position ``idx`` of the value ``v`` a tuple target is unpacked from."""
+    if isinstance(v, (ast.Tuple, ast.List)) and not any(isinstance(x, ast.Starred) for x in v.elts) and idx < len(v.elts):
+        return shape_of(repo, fi, v.elts[idx], depth)
+    if isinstance(v, ast.Call) and isinstance(v.func, ast.Name):
+        try:
+            kind, cmod, callee = repo.resolve(fi.mod, v.func.id)
+        except Exception:
+            return None
+        if kind != 'func':
+            return None
+        rets = returns_of(callee)
+        shapes = []
+        for r in rets:
+            rv = _deref(callee, r.value) if r.value is not None else None
+            if not (isinstance(rv, ast.Tuple) and not any(isinstance(x, ast.Starred) for x in rv.elts) and idx < len(rv.elts)):
+                return None
+            shapes.append(shape_of(repo, callee, rv.elts[idx], depth))
+        if shapes and all(s is not None for s in shapes) and len(set(s[0] for s in shapes)) == 1:
+            return shapes[0] if len(set(shapes)) == 1 else (shapes[0][0], None)
+    return None
+
+
+_PCT_SPEC = None
+
+
+def percent_arity(fmt):
+    """(number of values a ``%`` format string consumes, uses mapping keys?) -- None when the text is malformed."""
+    global _PCT_SPEC
+    import re
+    if _PCT_SPEC is None:
+        _PCT_SPEC = re.compile(r'%(?:\((?P<key>[^)]*)\))?[#0\- +]*(?P<w>\*|\d+)?(?:\.(?P<p>\*|\d+))?[hlL]?(?P<c>.)?', re.S)
+    n, keyed = 0, False
+    for m in _PCT_SPEC.finditer(fmt):
+        c = m.group('c')
+        if c is None or c not in 'diouxXeEfFgGcrsa%':
+            return None
+        if c == '%':
+            continue
+        if m.group('key') is not None:
+            keyed = True
+            continue
+        n += 1 + (m.group('w') == '*') + (m.group('p') == '*')
+    return n, keyed
+
+
+def message_faults(repo, fi, expr):
+    """Ways in which evaluating the message expression ``expr`` can itself raise, as far as the tree decides it:
+    ``fmt % operand`` whose operand is a tuple of the wrong or of run-time length (or a non-tuple when the format takes
+    another number of values than one), ``fmt.format(...)`` that lacks a positional / named field, ``str + <non-str>``.
+    -> (faults as texts, number of formatting operations that were judged)."""
+    faults, judged = [], 0
+    for n in ast.walk(expr):
+        if isinstance(n, ast.BinOp) and isinstance(n.op, ast.Mod):
+            try:
+                fmt = repo.try_fold(n.left, fi.mod)
+            except Exception:
+                fmt = None
+            if not isinstance(fmt, str):
+                continue
+            ar = percent_arity(fmt)
+            if ar is None:
+                continue
+            k, keyed = ar
+            sh = shape_of(repo, fi, n.right)
+            if sh is None:
+                continue
+            judged += 1
+            if keyed:
+                if sh[0] != 'dict':
+                    faults.append('%s: a format with mapping keys needs a mapping, the operand is a %s' % (short(n, 70), sh[0]))
+                continue
+            if sh[0] == 'tuple':
+                if sh[1] is None:
+                    faults.append('the right operand of %% in %s is a tuple whose length is only known at run time: %% spreads it over '
+                                  'the %d conversion(s) of the format and raises TypeError unless it has exactly %d element(s) '
+                                  '(wrap it: (x,) or list(x))' % (short(n, 70), k, k))
+                elif sh[1] != k:
+                    faults.append('%s: the format takes %d value(s), the tuple has %d' % (short(n, 70), k, sh[1]))
+            elif k != 1 and not (sh[0] == 'dict' and k == 0):
+                faults.append('%s: the format takes %d value(s), the operand is a single %s' % (short(n, 70), k, sh[0]))
+        elif isinstance(n, ast.BinOp) and isinstance(n.op, ast.Add):
+            l, r = shape_of(repo, fi, n.left), shape_of(repo, fi, n.right)
+            if l and r and (l[0] == 'str') != (r[0] == 'str') and 'nontuple' not in (l[0], r[0]):
+                judged += 1
+                faults.append('%s concatenates a str with a %s (TypeError)' % (short(n, 70), r[0] if l[0] == 'str' else l[0]))
+        elif isinstance(n, ast.Call) and isinstance(n.func, ast.Attribute) and n.func.attr == 'format' and \
+                not any(isinstance(a, ast.Starred) for a in n.args) and not any(k.arg is None for k in n.keywords):
+            try:
+                fmt = repo.try_fold(n.func.value, fi.mod)
+            except Exception:
+                fmt = None
+            if not isinstance(fmt, str):
+                continue
+            import string
+            try:
+                fields = [f for _, f, _, _ in string.Formatter().parse(fmt) if f is not None]
+            except ValueError:
+                continue
+            judged += 1
+            auto = 0
+            for f in fields:
+                head = f.replace('[', '.').split('.')[0]
+                if head == '':
+                    idx, auto = auto, auto + 1
+                elif head.isdigit():
+                    idx = int(head)
+                else:
+                    if head not in [k.arg for k in n.keywords]:
+                        faults.append('%s: field {%s} has no keyword argument (KeyError)' % (short(n, 70), head))
+                    continue
+                if idx >= len(n.args):
+                    faults.append('%s: field {%s} has no positional argument (IndexError)' % (short(n, 70), f or idx))
+    return faults, judged
+
+
+def check_raise_total(rep, rule, fi, raises, what):
+    """The documented rejection must surface as the documented exception: building its message may not raise another one."""
+    repo = rep.repo
+    faults, judged = [], 0
+    first = None
+    for r in raises:
+        if r.exc is None:
+            continue
+        f, j = message_faults(repo, fi, r.exc)
+        if f and first is None:
+            first = r
+        faults.extend(f)
+        judged += j
+    if not judged:
+        return
+    ok = not faults
+    rep.check(rule, fkey(fi, 'message of ' + what), ok,
+              'building the message of %s cannot fail: every format gets the number of values it takes (%d formatting operation(s))'
+              % (what, judged) if ok else
+              '%s is not what the caller gets -- building its message raises first: %s' % (what, '; '.join(faults)),
+              fi.mod, first if first is not None else (raises[0] if raises else fi.node))
+
+
 def check_unresolved_raises(rep, rule):
     repo = rep.repo
     core = repo.mod(CORE)
     fi = core.func('make_middleware_chain')
     cfg = cfg_of(fi)
     branches = _branches_resolved(fi, cfg)
+    check_raise_total(rep, rule, fi, [r for r in raises_of(fi) if raise_type(r) == 'NameError'], 'the NameError for unresolved / misplaced arguments')
     n = 0
     for st in stmts_of(fi.node):
         if isinstance(st, ast.Assign) and isinstance(st.value, ast.Call) and call_name(st.value) == 'make_chain':
@@ -1297,85 +1536,481 @@ def check_middleware_identity(rep, rule):
 # R03.d: merge_middlewares and its call in BoundRoute.__init__
 # ---------------------------------------------------------------------------------------------
 
+class _F(object):
+    """Tiny propositional formulas over named atoms: ('atom', name) / ('not', f) / ('and', [f..]) / ('or', [f..]) /
+    ('const', bool).  Equivalence is decided by the truth table (the atoms of merge_middlewares are a handful)."""
+
+    @staticmethod
+    def atoms(f, out=None):
+        out = set() if out is None else out
+        if f[0] == 'atom':
+            out.add(f[1])
+        elif f[0] == 'not':
+            _F.atoms(f[1], out)
+        elif f[0] in ('and', 'or'):
+            for g in f[1]:
+                _F.atoms(g, out)
+        return out
+
+    @staticmethod
+    def ev(f, env):
+        k = f[0]
+        if k == 'atom':
+            return env[f[1]]
+        if k == 'const':
+            return f[1]
+        if k == 'not':
+            return not _F.ev(f[1], env)
+        if k == 'and':
+            return all(_F.ev(g, env) for g in f[1])
+        return any(_F.ev(g, env) for g in f[1])
+
+    @staticmethod
+    def witness(f, g, require=None):
+        """An assignment on which f and g differ (restricted to assignments satisfying ``require``), or None."""
+        import itertools
+        names = sorted(_F.atoms(f) | _F.atoms(g) | (_F.atoms(require) if require else set()))
+        if len(names) > 10:
+            raise AnalysisError('merge_middlewares: condition over %d atoms' % len(names))
+        for vals in itertools.product((False, True), repeat=len(names)):
+            env = dict(zip(names, vals))
+            if require is not None and not _F.ev(require, env):
+                continue
+            if _F.ev(f, env) != _F.ev(g, env):
+                return env
+        return None
+
+    @staticmethod
+    def implies(f, g):
+        return _F.witness(('or', [('not', f), g]), ('const', True)) is None
+
+
+_MERGE_PURE = {'len', 'list', 'tuple', 'iter', 'set', 'frozenset', 'enumerate', 'reversed', 'sorted', 'any', 'all', 'isinstance',
+               'repr', 'str', 'bool', 'id', 'type', 'zip'}
+
+
+def _merge_records(repo):
+    """Analysis of merge_middlewares(old, new) against its specification
+
+        result = new ++ [m for m in old, in order, unless m.unique and type(m) already in the result built so far]
+        ValueError when such a duplicate is not reorderable
+
+    in either of two shapes: (A) an accumulator seeded with a copy of ``new`` that a loop over ``old`` appends to, testing
+    membership in the accumulator as it grows; (B) a closed form ``<copy of new> + [m for m in old if ...]``, where "the
+    result built so far" has to be spelled out (``m in outer or m in old[:i]``).
+    -> (fi, records); a record is a dict key / order=(ok, detail) / complete=(ok, detail) / node: ``order`` is the
+    obligation of the ordering specification (C03), ``complete`` the weaker one that nothing but a unique duplicate is
+    left out of the result (what the conflict check downstream depends on); either may be None."""
+    core = repo.mod(CORE)
+    fi = core.func('merge_middlewares')
+    ps = fi.params()   # old, new
+    if len(ps) != 2:
+        raise AnalysisError('merge_middlewares signature changed: %r' % ps)
+    P_OLD, P_NEW = ps
+    rets = returns_of(fi)
+    if len(rets) != 1 or rets[0].value is None:
+        raise AnalysisError('merge_middlewares: expected a single "return <list>"')
+    recs = []
+
+    def rec(key, node, order=None, complete=None):
+        recs.append({'key': fkey(fi, key), 'order': order, 'complete': complete, 'node': node})
+
+    def values_of(name, augmented=True):
+        """Value expressions bound to a local (positions of a tuple display unpacked); None where not followable."""
+        out = []
+        for st_, v, idx in assigned_value(fi.node, name):
+            if isinstance(st_, ast.AugAssign) and not augmented:
+                continue
+            if idx is None and isinstance(st_, ast.Assign):
+                out.append(v)
+            elif isinstance(idx, int) and isinstance(st_, ast.Assign) and isinstance(v, (ast.Tuple, ast.List)) and idx < len(v.elts) \
+                    and not any(isinstance(x, ast.Starred) for x in v.elts):
+                out.append(v.elts[idx])
+            else:
+                out.append(None)
+        return out
+
+    def copy_of(e, param, depth=0):
+        """``e`` is the parameter itself or an order-preserving copy of it (possibly under a local name; the parameter may
+        be re-bound to a copy of itself)."""
+        if depth > 4:
+            return False
+        if isinstance(e, ast.Call) and call_name(e) in ('list', 'tuple', 'iter') and len(e.args) == 1 and not e.keywords:
+            return copy_of(e.args[0], param, depth)
+        if isinstance(e, (ast.List, ast.Tuple)) and len(e.elts) == 1 and isinstance(e.elts[0], ast.Starred):
+            return copy_of(e.elts[0].value, param, depth)
+        if isinstance(e, ast.Subscript) and isinstance(e.slice, ast.Slice) and e.slice.lower is None and e.slice.upper is None and e.slice.step is None:
+            return copy_of(e.value, param, depth)
+        if isinstance(e, ast.Name):
+            vals = values_of(e.id)
+            if e.id == param:
+                return all(v is not None and _rebinds_self(v, param) for v in vals)
+            if e.id in ps:
+                return False
+            return len(vals) == 1 and vals[0] is not None and copy_of(vals[0], param, depth + 1)
+        return False
+
+    def _rebinds_self(v, param):
+        return isinstance(v, ast.Call) and call_name(v) in ('list', 'tuple') and len(v.args) == 1 and not v.keywords and norm(v.args[0]) == param
+
+    rv = rets[0].value
+    loops = [s for s in stmts_of(fi.node) if isinstance(s, ast.For)]
+
+    def mutation_sites(names):
+        """Everything that changes (or may change) a list held under one of ``names``: [(node, what)]."""
+        out = []
+        for e in effects.effects_in(fi.node):
+            if e.root in names and e.chain is not None:
+                if e.kind == 'mutcall' and len(e.chain) == 1:
+                    out.append((e.node, e.method))
+                elif e.kind in ('store', 'delete') and len(e.chain) >= 2 and e.chain[1] == '[]':
+                    out.append((e.node, 'item ' + e.kind))
+        for c in walk_body(fi.node):
+            if isinstance(c, ast.Call) and call_name(c) not in _MERGE_PURE and \
+                    any(isinstance(a, ast.Name) and a.id in names for a in list(c.args) + [k.value for k in c.keywords]):
+                out.append((c, 'passed to ' + (call_name(c) or norm(c.func))))
+        for s in stmts_of(fi.node):
+            if isinstance(s, ast.AugAssign) and isinstance(s.target, ast.Name) and s.target.id in names:
+                out.append((s, 'augmented assignment'))
+        return out
+
+    def aliases_of(name):
+        out = {name}
+        for _ in range(3):
+            for s in stmts_of(fi.node):
+                if isinstance(s, ast.Assign) and isinstance(s.value, ast.Name) and s.value.id in out:
+                    for t in s.targets:
+                        if isinstance(t, ast.Name):
+                            out.add(t.id)
+        return out
+
+    # ------------------------------------------------------------------ shape A: accumulator + loop
+    if isinstance(rv, ast.Name) and loops and mutation_sites(aliases_of(rv.id)):
+        M = rv.id
+        cfg = cfg_of(fi)
+        names = aliases_of(M)
+        init_vals = values_of(M, augmented=False)      # (augmented assignments are judged as mutations below)
+        init_st = [st_ for st_, v, idx in assigned_value(fi.node, M) if not isinstance(st_, ast.AugAssign)]
+        ok = len(init_vals) == 1 and init_vals[0] is not None and copy_of(init_vals[0], P_NEW) and not isinstance(init_vals[0], ast.Name) and \
+            not (isinstance(init_vals[0], ast.Call) and call_name(init_vals[0]) in ('tuple', 'iter'))      # a fresh *list*
+        d = ('the merged list starts as a copy of the new (outer) list, in order' if ok else
+             'the merged list does not start as list(%s): the outer list no longer comes first (or is not all there)' % P_NEW)
+        rec('starts with new', init_st[0] if init_st else fi.node, (ok, d), (ok, d))
+        ok = len(loops) == 1 and copy_of(loops[0].iter, P_OLD) and isinstance(loops[0].target, ast.Name)
+        d = 'the old (inner) list is walked in order' if ok else 'merge does not iterate the old list in order'
+        rec('iterates old in order', loops[0] if loops else fi.node, (ok, d), (ok, d))
+        if not ok:
+            return fi, recs
+        mw = loops[0].target.id
+        muts = mutation_sites(names)
+
+        def appends_mw(node, what):
+            """The mutation is ``M.append(mw)`` in one of its spellings."""
+            if isinstance(node, ast.Call) and what == 'append':
+                return len(node.args) == 1 and not node.keywords and norm(node.args[0]) == mw
+            one = None
+            if isinstance(node, ast.Call) and what == 'extend' and len(node.args) == 1:
+                one = node.args[0]
+            elif isinstance(node, ast.AugAssign) and isinstance(node.op, ast.Add):
+                one = node.value
+            return isinstance(one, (ast.List, ast.Tuple)) and len(one.elts) == 1 and norm(one.elts[0]) == mw
+        app_sites = [n for n, w in muts if appends_mw(n, w)]
+        other = [(n, w) for n, w in muts if not appends_mw(n, w)]
+        ok = len(app_sites) == 1 and not other
+        d = ('the merged list is only ever appended to, with the old middleware at hand: what came from the new (outer) list keeps '
+             'its instances and positions' if ok else
+             'the merged list is changed by something else than one "append(%s)": %s -- an element taken from the new (outer) list may be '
+             'replaced, moved or removed' % (mw, ', '.join('%s [%s]' % (short(n, 60), w) for n, w in (other or muts)) or 'no append at all'))
+        rec('only appends', other[0][0] if other else (app_sites[0] if app_sites else fi.node), (ok, d), (ok, d))
+
+        def ncs(cs):
+            out = []
+            for t, p in cs:
+                if isinstance(t, ast.Compare) and len(t.ops) == 1 and isinstance(t.ops[0], ast.NotIn):
+                    t2 = ast.Compare(left=t.left, ops=[ast.In()], comparators=t.comparators)
+                    out.append((t2, not p))
+                out.append((t, p))
+            return out
+        is_unique = lambda t: norm(t) == '%s.unique' % mw
+        is_member = lambda t: isinstance(t, ast.Compare) and len(t.ops) == 1 and isinstance(t.ops[0], ast.In) and norm(t.left) == mw \
+            and isinstance(t.comparators[0], ast.Name) and t.comparators[0].id in names
+        is_dup_text = lambda t: isinstance(t, ast.BoolOp) and isinstance(t.op, ast.And) and any(is_unique(v) for v in t.values) and \
+            any(is_member(v) for v in t.values) and len(t.values) == 2
+        is_reord = lambda t: norm(t) == '%s.reorderable' % mw
+
+        def dup_holds(cs):
+            cs = ncs(cs)
+            return has_cond(cs, is_dup_text, True) or (has_cond(cs, is_unique, True) and has_cond(cs, is_member, True))
+
+        def neg_part(t):
+            """``t`` says "not unique" or "not in the merged list"."""
+            if isinstance(t, ast.UnaryOp) and isinstance(t.op, ast.Not):
+                return is_unique(t.operand) or is_member(t.operand)
+            return isinstance(t, ast.Compare) and len(t.ops) == 1 and isinstance(t.ops[0], ast.NotIn) and \
+                is_member(ast.Compare(left=t.left, ops=[ast.In()], comparators=t.comparators))
+        is_not_dup_text = lambda t: isinstance(t, ast.BoolOp) and isinstance(t.op, ast.Or) and all(neg_part(v) for v in t.values)
+
+        def dup_refuted(cs):
+            cs = ncs(cs)
+            return has_cond(cs, is_dup_text, False) or has_cond(cs, is_unique, False) or has_cond(cs, is_member, False) or \
+                has_cond(cs, is_not_dup_text, True)
+        ok = len(app_sites) == 1
+        if ok:
+            ok = dup_refuted(conds(fi, app_sites[0]))
+        d = ('an old middleware is appended (after all new ones) only when it is not a unique type already present in the list as it grows' if ok else
+             'the append is not guarded by "not (%s.unique and %s in %s)" -- membership has to be tested against the merged list as it grows: %s'
+             % (mw, mw, M, [short(n, 60) for n in app_sites] or 'no append'))
+        rec('append', app_sites[0] if app_sites else fi.node, (ok, d), None)
+        # an iteration that ends without appending (and without raising) is a dropped middleware: that may happen exactly
+        # for a reorderable unique duplicate.  The ends of an iteration are the predecessors of the loop head inside the body.
+        head = [n for n in cfg.nodes_of(loops[0]) if cfg.nodes[n].kind == 'head']
+        iter_nodes = [n.id for n in cfg.nodes if n.kind == 'iter' and n.stmt is loops[0]]
+        app_nodes = cfg.nodes_of_all([s if isinstance(s, ast.stmt) else stmt_of(core, s) for s in app_sites]) if app_sites else []
+        in_body = cfg.reach(iter_nodes, avoid=head)
+        ends = [p_ for h in head for p_ in cfg.pred[h] if p_ in in_body]
+        drops = [p_ for p_ in ends if p_ not in app_nodes and not cfg.must_pass(app_nodes, iter_nodes, [p_])]
+        ok_o = ok_c = bool(drops)
+        for p_ in drops:
+            cs = cfg.conds_at(p_)
+            nd = cfg.nodes[p_]
+            if nd.kind == 'branch':
+                cs = cs + cfg._expand_named(expand_conds([(nd.test, nd.pol)]), p_)
+            ok_c = ok_c and dup_holds(cs)
+            ok_o = ok_o and dup_holds(cs) and has_cond(cs, is_reord, True)
+        rec('unique duplicate dropped', loops[0],
+            (ok_o, 'a reorderable unique duplicate is dropped, keeping the outer occurrence' if ok_o else
+             'duplicates are skipped under the wrong condition (an old middleware may be left out only when it is unique, of a type '
+             'already in the merged list, and reorderable)'),
+            (ok_c, 'an old middleware is left out of the merged list only when it is a unique type that is already in it' if ok_c else
+             'a middleware that is not a unique-type duplicate can be left out of the merged list: a second instance of a non-unique class '
+             'never reaches the conflict check and its provides are silently shadowed'))
+        rz = raises_of(fi)
+        ok = bool(rz) and all(raise_type(r) == 'ValueError' and dup_holds(conds(fi, r)) and has_cond(conds(fi, r), is_reord, False) for r in rz)
+        rec('non-reorderable duplicate', rz[0] if rz else fi.node,
+            (ok, 'a unique non-reorderable duplicate raises ValueError' if ok else 'a unique non-reorderable duplicate is not rejected with ValueError'), None)
+        return fi, recs
+
+    # ------------------------------------------------------------------ shape B: closed form
+    def seq(e, depth=0):
+        """Concatenation normal form: ('new', e) / ('old', e) whole parameter copies, ('comp', e), ('prefix', e, index name),
+        ('?', e)."""
+        if depth > 5:
+            return [('?', e)]
+        if copy_of(e, P_NEW):
+            return [('new', e)]
+        if copy_of(e, P_OLD):
+            return [('old', e)]
+        if isinstance(e, ast.BinOp) and isinstance(e.op, ast.Add):
+            return seq(e.left, depth) + seq(e.right, depth)
+        if isinstance(e, ast.Call) and call_name(e) in ('list', 'tuple') and len(e.args) == 1 and not e.keywords:
+            return seq(e.args[0], depth)
+        if isinstance(e, (ast.List, ast.Tuple)) and e.elts and all(isinstance(x, ast.Starred) for x in e.elts):
+            out = []
+            for x in e.elts:
+                out.extend(seq(x.value, depth))
+            return out
+        if isinstance(e, (ast.ListComp, ast.GeneratorExp)):
+            return [('comp', e)]
+        if isinstance(e, ast.Subscript) and isinstance(e.slice, ast.Slice) and e.slice.lower is None and e.slice.step is None and \
+                isinstance(e.slice.upper, ast.Name) and copy_of(e.value, P_OLD):
+            return [('prefix', e, e.slice.upper.id)]
+        if isinstance(e, ast.Name) and e.id not in ps:
+            vals = values_of(e.id)
+            if len(vals) == 1 and vals[0] is not None:
+                return seq(vals[0], depth + 1)
+        return [('?', e)]
+
+    def comp_header(c):
+        """(element variable, index variable or None, iterable) of a one-generator comprehension."""
+        if len(c.generators) != 1 or c.generators[0].is_async:
+            return None
+        g = c.generators[0]
+        if isinstance(g.target, ast.Name):
+            return g.target.id, None, g.iter
+        if isinstance(g.target, ast.Tuple) and len(g.target.elts) == 2 and all(isinstance(x, ast.Name) for x in g.target.elts) and \
+                isinstance(g.iter, ast.Call) and call_name(g.iter) == 'enumerate' and len(g.iter.args) == 1 and not g.iter.keywords:
+            return g.target.elts[1].id, g.target.elts[0].id, g.iter.args[0]
+        return None
+
+    def formula(t, var, idx):
+        """Condition on the old middleware ``var`` as a formula over the atoms U (var.unique), R (var.reorderable), Inew (its type
+        is in the new list), Iold (its type occurs earlier in the old list); anything else is an atom of its own."""
+        if isinstance(t, ast.Constant) and isinstance(t.value, bool):
+            return ('const', t.value)
+        if isinstance(t, ast.UnaryOp) and isinstance(t.op, ast.Not):
+            return ('not', formula(t.operand, var, idx))
+        if isinstance(t, ast.BoolOp):
+            return ('and' if isinstance(t.op, ast.And) else 'or', [formula(v, var, idx) for v in t.values])
+        text = norm(t)
+        if text == '%s.unique' % var:
+            return ('atom', 'U')
+        if text == '%s.reorderable' % var:
+            return ('atom', 'R')
+        if isinstance(t, ast.Compare) and len(t.ops) == 1 and isinstance(t.ops[0], (ast.In, ast.NotIn)) and norm(t.left) == var:
+            parts = []
+            for it in seq(t.comparators[0]):
+                if it[0] == 'new':
+                    parts.append(('atom', 'Inew'))
+                elif it[0] == 'prefix' and idx is not None and it[2] == idx:
+                    parts.append(('atom', 'Iold'))
+                else:
+                    parts.append(('atom', '%s in %s' % (var, norm(it[1]))))
+            f = parts[0] if len(parts) == 1 else ('or', parts)
+            return ('not', f) if isinstance(t.ops[0], ast.NotIn) else f
+        return ('atom', text)
+
+    DUP = ('and', [('atom', 'U'), ('or', [('atom', 'Inew'), ('atom', 'Iold')])])
+
+    def show(env):
+        words = {'U': 'unique', 'R': 'reorderable', 'Inew': 'type present in the new list', 'Iold': 'type occurs earlier in the old list'}
+        return ', '.join('%s%s' % ('' if v else 'not ', words.get(k, k)) for k, v in sorted(env.items()))
+
+    items = seq(rv)
+    if not items or any(k == '?' for k, *_ in items):
+        raise AnalysisError('merge_middlewares: the returned value %s is neither an accumulator filled by a loop nor a concatenation of '
+                            'recognisable parts' % short(rv, 80))
+    part_names = set(n.id for n in ast.walk(rv) if isinstance(n, ast.Name)) - set(ps)
+    ok = items[0][0] == 'new'
+    d = ('the result starts with a copy of the new (outer) list, in order' if ok else
+         'the result does not start with the new (outer) list: %s' % [k for k, *_ in items])
+    rec('starts with new', rets[0], (ok, d), (ok, d))
+    comps = [it for it in items[1:] if it[0] == 'comp']
+    hdr = comp_header(comps[0][1]) if len(comps) == 1 else None
+    ok = len(items) == 2 and hdr is not None and copy_of(hdr[2], P_OLD) and isinstance(comps[0][1].elt, ast.Name) and comps[0][1].elt.id == hdr[0]
+    d = ('after it come the old (inner) middlewares that pass the filter, in order' if ok else
+         'the rest of the result is not one in-order selection from the old list: %s' % [k for k, *_ in items[1:]])
+    rec('iterates old in order', comps[0][1] if comps else rets[0], (ok, d), (ok, d))
+    if not ok:
+        return fi, recs
+    comp = comps[0][1]
+    var, idx, _ = hdr
+    muts = mutation_sites(part_names)
+    ok = not muts
+    d = ('the parts of the result are not modified after they are built' if ok else
+         'a part of the result is changed after it was built: %s' % ', '.join('%s [%s]' % (short(n, 60), w) for n, w in muts))
+    rec('only appends', muts[0][0] if muts else rets[0], (ok, d), (ok, d))
+    K = ('and', [formula(t, var, idx) for t in comp.generators[0].ifs]) if comp.generators[0].ifs else ('const', True)
+    scope_note = ''
+    if 'Iold' not in _F.atoms(K):
+        scope_note = (' -- the duplicate test only looks at a fixed list, not at the result as it grows: two instances of one unique type '
+                      'inside the old list are both kept (and a non-reorderable one listed twice is accepted)')
+    w = _F.witness(('or', [('not', K), ('not', DUP)]), ('const', True))
+    ok = w is None
+    d = ('an old middleware is kept only when it is not a unique type already present in new ++ the earlier old ones' if ok else
+         'an old middleware is kept although it duplicates a unique type already in the result (%s)%s' % (show(w), scope_note))
+    rec('append', comp, (ok, d), None)
+    w = _F.witness(('or', [K, DUP]), ('const', True))
+    ok_c = w is None
+    rz = raises_of(fi)
+    rec('unique duplicate dropped', comp,
+        (ok_c, 'only unique duplicates are filtered out (the non-reorderable ones are rejected separately)' if ok_c else
+         'a middleware that is no unique duplicate is filtered out (%s)' % show(w)),
+        (ok_c, 'an old middleware is left out of the result only when it is a unique type that is already in it' if ok_c else
+         'a middleware that is not a unique-type duplicate is left out of the result (%s): it never reaches the conflict check' % show(w)))
+    # the rejection: some old middleware is a non-reorderable unique duplicate => ValueError, before the result is returned
+    WANT = ('and', [DUP, ('not', ('atom', 'R'))])
+
+    def exists_formula(t, depth=0):
+        """``t`` is truthy iff some old middleware satisfies the returned formula (comprehension chains over the old list,
+        any(...)); None when ``t`` is not of that kind."""
+        if depth > 4:
+            return None
+        if isinstance(t, ast.Name) and t.id not in ps:
+            vals = values_of(t.id)
+            return exists_formula(vals[0], depth + 1) if len(vals) == 1 and vals[0] is not None else None
+        if isinstance(t, ast.Call) and call_name(t) in ('list', 'tuple', 'bool', 'len', 'any') and len(t.args) == 1 and not t.keywords:
+            a = t.args[0]
+            if call_name(t) == 'any' and isinstance(a, (ast.GeneratorExp, ast.ListComp)):
+                h = comp_header(a)
+                if h is None:
+                    return None
+                base = ('const', True) if copy_of(h[2], P_OLD) else exists_formula(h[2], depth + 1)
+                if base is None:
+                    return None
+                return ('and', [base, formula(a.elt, h[0], h[1])] + [formula(x, h[0], h[1]) for x in a.generators[0].ifs])
+            return exists_formula(a, depth + 1) if call_name(t) != 'any' else None
+        if isinstance(t, (ast.ListComp, ast.GeneratorExp)):
+            h = comp_header(t)
+            if h is None or not (isinstance(t.elt, ast.Name) and t.elt.id == h[0]):
+                return None
+            base = ('const', True) if copy_of(h[2], P_OLD) else (exists_formula(h[2], depth + 1) if isinstance(h[2], ast.Name) else None)
+            if base is None:
+                return None
+            return ('and', [base] + [formula(x, h[0], h[1]) for x in t.generators[0].ifs])
+        return None
+    ok, why = bool(rz), 'a unique non-reorderable duplicate is not rejected at all'
+    body = list(fi.node.body)
+    for r in rz:
+        if raise_type(r) != 'ValueError':
+            ok, why = False, 'the rejection raises %s instead of ValueError' % raise_type(r)
+            continue
+        F = None
+        in_loop = [l for l in loops if any(x is r for x in ast.walk(l))]
+        if in_loop:
+            l = in_loop[-1]
+            tgt = l.target
+            lv = li = None
+            it_ = l.iter
+            if isinstance(tgt, ast.Name):
+                lv = tgt.id
+            elif isinstance(tgt, ast.Tuple) and len(tgt.elts) == 2 and all(isinstance(x, ast.Name) for x in tgt.elts) and \
+                    isinstance(it_, ast.Call) and call_name(it_) == 'enumerate' and len(it_.args) == 1:
+                li, lv, it_ = tgt.elts[0].id, tgt.elts[1].id, it_.args[0]
+            if lv is not None and copy_of(it_, P_OLD):
+                F = ('and', [formula(t, lv, li) if p else ('not', formula(t, lv, li)) for t, p in conds(fi, r)] or [('const', True)])
+        else:
+            for t, p in conds(fi, r):
+                if p is True:
+                    F = exists_formula(t)
+                    if F is not None:
+                        break
+        if F is None:
+            raise AnalysisError('merge_middlewares: the condition under which %s is raised is not recognised as "some old middleware is ..."'
+                                % short(r, 60))
+        w = _F.witness(F, WANT)
+        if w is not None:
+            ok = False
+            why = ('ValueError is raised for the wrong middlewares: on (%s) the code %s, the specification %s%s'
+                   % (show(w), 'raises' if _F.ev(F, w) else 'does not raise', 'raises' if _F.ev(WANT, w) else 'does not',
+                      scope_note if 'Iold' not in _F.atoms(F) else ''))
+        top = [s for s in body if any(x is r for x in ast.walk(s))]
+        rtop = [s for s in body if any(x is rets[0] for x in ast.walk(s))]
+        if not (top and rtop and body.index(top[0]) < body.index(rtop[0]) and isinstance(top[0], (ast.If, ast.For))):
+            ok, why = False, 'the rejection of non-reorderable duplicates does not precede the return on every path'
+    rec('non-reorderable duplicate', rz[0] if rz else fi.node,
+        (ok, 'a unique non-reorderable duplicate raises ValueError before anything is returned' if ok else why), None)
+    return fi, recs
+
+
+def check_merge_complete(rep, rule):
+    """What the conflict check downstream of merge_middlewares relies on: the merged list holds every middleware of both
+    levels, except that an old one may be left out when it is a unique type already present."""
+    fi, recs = _merge_records(rep.repo)
+    for r in recs:
+        if r['complete'] is not None:
+            rep.check(rule, r['key'] + ' (nothing lost)', r['complete'][0], r['complete'][1], fi.mod, r['node'])
+
+
+def check_merge_keeps_outer(rep, rule):
+    """The middleware *instances* of the new (outer, binding application's) list are in the merged list, each at its
+    position, none replaced: whoever holds a reference to an application-level middleware holds the object that runs."""
+    fi, recs = _merge_records(rep.repo)
+    for r in recs:
+        if r['key'].endswith(('::starts with new', '::only appends')) and r['complete'] is not None:
+            rep.check(rule, r['key'] + ' (outer instances kept)', r['complete'][0], r['complete'][1], fi.mod, r['node'])
+
+
 def check_merge_order(rep, rule):
     repo = rep.repo
     core = repo.mod(CORE)
     route = repo.mod(ROUTE)
-    fi = core.func('merge_middlewares')
-    ps = fi.params()   # old, new
-    cfg = cfg_of(fi)
-    rets = returns_of(fi)
-    if len(rets) != 1 or not isinstance(rets[0].value, ast.Name):
-        raise AnalysisError('merge_middlewares: expected a single "return <list>"')
-    M = rets[0].value.id
-    init = [s for s in stmts_of(fi.node) if isinstance(s, ast.Assign) and norm(s.targets[0]) == M]
-    ok = len(init) == 1 and norm(init[0].value) in ('list(%s)' % ps[1], '[*%s]' % ps[1], '%s[:]' % ps[1])
-    rep.check(rule, fkey(fi, 'starts with new'), ok,
-              'the merged list starts as a copy of the new (outer) list, in order' if ok else
-              'the merged list does not start as list(%s): the outer list no longer comes first' % ps[1], core, init[0] if init else fi.node)
-    muts = [c for c in walk_body(fi.node) if isinstance(c, ast.Call) and isinstance(c.func, ast.Attribute)
-            and norm(c.func.value) == M and c.func.attr in ('append', 'insert', 'extend', 'sort', 'reverse', 'remove', 'pop')]
-    loops = [s for s in stmts_of(fi.node) if isinstance(s, ast.For)]
-
-    def is_old(e, depth=0):
-        """``e`` is the old list itself or an order-preserving copy of it (possibly under a local name)."""
-        if isinstance(e, ast.Call) and call_name(e) in ('list', 'tuple', 'iter') and len(e.args) == 1 and not e.keywords:
-            return is_old(e.args[0], depth)
-        if isinstance(e, ast.Starred):
-            return is_old(e.value, depth)
-        if isinstance(e, (ast.List, ast.Tuple)) and len(e.elts) == 1 and isinstance(e.elts[0], ast.Starred):
-            return is_old(e.elts[0].value, depth)
-        if isinstance(e, ast.Subscript) and isinstance(e.slice, ast.Slice) and e.slice.lower is None and e.slice.upper is None and e.slice.step is None:
-            return is_old(e.value, depth)
-        if isinstance(e, ast.Name):
-            vals = [v for st_, v, idx in assigned_value(fi.node, e.id)]
-            if e.id == ps[0]:
-                return all(is_old_rebind(v) for v in vals)
-            return depth < 3 and len(vals) == 1 and is_old(vals[0], depth + 1)
-        return False
-
-    def is_old_rebind(v):
-        # ``old = list(old)``
-        return isinstance(v, ast.Call) and call_name(v) in ('list', 'tuple') and len(v.args) == 1 and norm(v.args[0]) == ps[0]
-    ok = len(loops) == 1 and is_old(loops[0].iter) and isinstance(loops[0].target, ast.Name)
-    rep.check(rule, fkey(fi, 'iterates old in order'), ok, 'the old (inner) list is walked in order' if ok else
-              'merge does not iterate the old list in order', core, loops[0] if loops else fi.node)
-    if not ok:
+    fi, recs = _merge_records(repo)
+    for r in recs:
+        if r['order'] is not None:
+            rep.check(rule, r['key'], r['order'][0], r['order'][1], core, r['node'])
+    if any(r['key'].endswith('iterates old in order') and not r['order'][0] for r in recs):
         return
-    mw = loops[0].target.id
-    is_dup = lambda t: '%s.unique' % mw in norm(t) and '%s in %s' % (mw, M) in norm(t)
-    is_reord = lambda t: norm(t) == '%s.reorderable' % mw
-    ok = len(muts) == 1 and muts[0].func.attr == 'append' and norm(muts[0].args[0]) == mw
-    if ok:
-        cs = conds(fi, muts[0])
-        ok = has_cond(cs, is_dup, False)
-    rep.check(rule, fkey(fi, 'append'), ok,
-              'an old middleware is appended (after all new ones) unless it is a unique type already present' if ok else
-              'the only mutation of the merged list is not "append(mw) when not (mw.unique and mw in merged)": %s' %
-              [short(m) for m in muts], core, muts[0] if muts else fi.node)
-    # an iteration that ends without appending (and without raising) is a dropped middleware: that may happen exactly
-    # for a reorderable unique duplicate.  The ends of an iteration are the predecessors of the loop head inside the body.
-    head = [n for n in cfg.nodes_of(loops[0]) if cfg.nodes[n].kind == 'head']
-    iter_nodes = [n.id for n in cfg.nodes if n.kind == 'iter' and n.stmt is loops[0]]
-    app_nodes = cfg.nodes_of_all([stmt_of(core, m) for m in muts]) if muts else []
-    in_body = cfg.reach(iter_nodes, avoid=head)
-    ends = [p_ for h in head for p_ in cfg.pred[h] if p_ in in_body]
-    drops = [p_ for p_ in ends if p_ not in app_nodes and not cfg.must_pass(app_nodes, iter_nodes, [p_])]
-    ok = bool(drops)
-    for p_ in drops:
-        cs = cfg.conds_at(p_)
-        nd = cfg.nodes[p_]
-        if nd.kind == 'branch':
-            cs = cs + cfg._expand_named(expand_conds([(nd.test, nd.pol)]), p_)
-        ok = ok and has_cond(cs, is_dup, True) and has_cond(cs, is_reord, True)
-    rep.check(rule, fkey(fi, 'unique duplicate dropped'), ok,
-              'a reorderable unique duplicate is dropped, keeping the outer occurrence' if ok else
-              'duplicates are skipped under the wrong condition', core, loops[0])
-    rz = raises_of(fi)
-    ok = bool(rz) and all(raise_type(r) == 'ValueError' and has_cond(conds(fi, r), is_dup, True) and has_cond(conds(fi, r), is_reord, False)
-                          for r in rz)
-    rep.check(rule, fkey(fi, 'non-reorderable duplicate'), ok, 'a unique non-reorderable duplicate raises ValueError' if ok else
-              'a unique non-reorderable duplicate is not rejected with ValueError', core, rz[0] if rz else fi.node)
+    check_raise_total(rep, rule, fi, [r for r in raises_of(fi)], 'the ValueError for a doubly included unique middleware')
     check_middleware_identity(rep, rule)
     # call site
     bi = route.func('BoundRoute.__init__')
